@@ -43,9 +43,16 @@ def check_case(case, stats=None, known=None):
         if stats:
             stats.counters['excluded_known_shape_join_retrigger'] += 1
         weak = True
+    if case.get('salt', 0) % 4 == 1:
+        # one case in four: scheduler jobs delete their row in a later
+        # event than the one that invoked them (as the real scheduler does,
+        # in two transactions), so other events see captured rows
+        case = dict(case, split_jobs=True)
     res = enginerun.run_case(case)
     viol = []
     tg = G.tags(prog, case['outcomes'])
+    if case.get('split_jobs'):
+        tg = tg + ['job_rows_deleted_in_a_later_event']
     if res.start_error is not None:
         e = res.start_error
         viol.append({'kind': 'start-failed',
